@@ -303,7 +303,7 @@ pub async fn run_server_case(c: &ServerCase) -> Result<(bool, Vec<u8>, usize), S
             (handle, addr, app.log.clone())
         }
         Variant::Tls | Variant::TlsAuthz => {
-            let cell = Cell { min13: false, self_signed: false, authz: c.variant == Variant::TlsAuthz, rodbus_is_server: true, peer: PeerVersions::Both, cert: CertKind::Valid, spawn: c.spawn };
+            let cell = Cell { min13: false, self_signed: false, authz: c.variant == Variant::TlsAuthz, rodbus_is_server: true, peer: PeerVersions::Both, cert: CertKind::Valid, spawn: c.spawn, ctor: 0 };
             let s = start_tls_server(&cell, "ca_a", filter, listen_ip, 4).await?;
             (s.handle, s.addr, s.app.log.clone())
         }
